@@ -19,5 +19,5 @@ MANIFEST = {
   'level_text': 'Bounded model checking of the lexer actions of the EXPRESS front end that own fixed buffers or copy token text (lexact.c, compiled by goto-cc with the flags of the real build): tail remarks and stand-alone remarks of every length up to 300 bytes against the real 256-byte remark buffer, string and encoded-string literals of every content within the byte bound; CBMC built-in pointer/bounds checks are the memory-safety assertion, functional CHECKs pin the token values and the arguments handed to the diagnostics.',
   'level_note': 'Trusted: CBMC, harness assumption that yytext has the shape the scanner rule guarantees. Outside the claim: the generated scanner and parser tables, the parser scope stack (20 nested scopes), resolver null-dereferences on invalid schemas, the 10000-byte formatting buffers of exppp, generator name buffers (see C18 for the Python generator), processing of the shipped schemas, bounded time.',
   'technique': 'CBMC bounded model checking (built-in memory-safety checks) of goto-cc-compiled lexact.c with symbolic token lengths and bytes; ASan replay',
-  'design_ref': 'DESIGN.md section 3, C06',
+  'design_ref': 'DESIGN.md section 2, C06',
 }
